@@ -7,6 +7,7 @@ import (
 	"go/parser"
 	"go/token"
 	"path"
+	"regexp"
 	"sort"
 	"strconv"
 	"strings"
@@ -191,6 +192,26 @@ func c11File(specs []string, layout string, p c11Patch, uses string) string {
 	return b.String()
 }
 
+var c11DecoyImp = regexp.MustCompile(`(?m)^(\s*(?:import )?)(?:(\w+) )?"(old/p|ctx/http|legacy/api|old/api/v1)"`)
+
+// c11Decoy renames the local names under which the file imports the packages the patches speak about.
+func c11Decoy(file string) string {
+	names := map[string]bool{}
+	out := c11DecoyImp.ReplaceAllStringFunc(file, func(m string) string {
+		sm := c11DecoyImp.FindStringSubmatch(m)
+		if sm[2] != "" {
+			names[sm[2]] = true
+			return sm[1] + "dq" + sm[2] + " \"" + sm[3] + "\""
+		}
+		names[path.Base(sm[3])] = true
+		return sm[1] + "dq" + path.Base(sm[3]) + " \"" + sm[3] + "\""
+	})
+	for n := range names {
+		out = regexp.MustCompile(`\b`+n+`\.`).ReplaceAllString(out, "dq"+n+".")
+	}
+	return out
+}
+
 type impSpec struct{ name, path string }
 
 func importsOf(src []byte) ([]impSpec, *ast.File, error) {
@@ -242,6 +263,11 @@ func c11Run(env *core.Env, ci any) core.Outcome {
 		pf, err := patch.Parse("i.patch", []byte(ptext))
 		if err != nil {
 			return core.Outcome{Skip: "patch rejected: " + firstWords(stripPos(err.Error()), 7)}
+		}
+		// the same parsed patch is first applied to a decoy that imports the affected packages under other
+		// names: nothing of that application may be remembered
+		if decoy := c11Decoy(c.File); decoy != c.File {
+			_, _ = pf.Apply("decoy.go", []byte(decoy))
 		}
 		out, err = pf.Apply("a.go", []byte(c.File))
 		if err != nil {
